@@ -3,6 +3,7 @@ package props
 import (
 	"fmt"
 	"go/constant"
+	"go/token"
 	"go/types"
 	"sort"
 	"strings"
@@ -19,7 +20,7 @@ func init() {
 		Explanation: "Decides the structural necessity conditions of the prefilter, not language inclusion for all patterns x inputs: R1 capture discipline: in rx.Evaluate a result that can be true is returned either with tx.Capturing()==false or after the full submatch search (every fast path is closed for capturing rules); " +
 			"R2 the artefacts stored in a compiled @rx (prefilter, minimum length, exact-match literal) come from the reviewed constructors only; reject-only: the minimum-length test and the prefilter function can only lead to 'return false' without side effects, never to a positive result; " +
 			"R3 necessity table over the regexp/syntax walkers (switch cases located through guard facts on re.Op): operators that may match zero times (OpQuest, OpStar, OpRepeat with Min==0) contribute no required literal and length 0; an alternation yields nothing as soon as one branch yields nothing and its length is the minimum over branches; a concatenation's length is the sum; a character class or any-char counts 1 byte; only OpBeginText/OpEndText count as anchors; filterShort is never applied to an 'any of' set; prefix/suffix tests are used only for the literal adjacent to the anchor; trie suffixes are taken from the start of a branch; every case-insensitive prefilter sits behind the isASCII guard (every return of prefilterFunc is nil, a length-only closure, the guarded wrapper, or case-sensitive); " +
-			"R3 also: the anchor element is recognised by a predicate that accepts only the bare anchor (not a group starting with it), the needle list is reordered only when neither positional test is enabled, and every literal is lower-cased whenever the matcher is case-insensitive (whatever the flags of its own node), arithmetic case folding of a byte is confined to letters by a range test, every literal returned by the trie extractors is non-empty (so the length filter of trieReconstruct never drops a word of an 'any of' set); R4 the prefilter switch is part of the @rx cache key (two WAFs with different settings never share a compiled artefact).",
+			"R3 also: the anchor element is recognised by a predicate that accepts only the bare anchor (not a group starting with it), the needle list is reordered only when neither positional test is enabled, and every literal is lower-cased whenever the matcher is case-insensitive (whatever the flags of its own node), arithmetic case folding of a byte is confined to letters by a range test, every literal returned by the trie extractors is non-empty (so the length filter of trieReconstruct never drops a word of an 'any of' set); R4 the prefilter switch is part of the @rx cache key (two WAFs with different settings never share a compiled artefact). R3 also: a loop-carried flag of the literal search loops is cleared only on an edge carrying Index*(s[i:], x) < 0 for an unbounded tail.",
 		NotDecided: []string{
 			"soundness of the literal extraction for all patterns x inputs (language inclusion), e.g. Unicode case-fold equivalents of literals",
 			"the Wu-Manber style multi-needle matcher and the ASCII-fold helpers (algorithmic)",
@@ -446,6 +447,7 @@ func runC11(c *an.Ctx) {
 	// operation on a byte is dominated by a range test that confines the byte to A-Z or a-z.  Unguarded, it also
 	// rewrites @ [ \\ ] ^ _ and control bytes, and a folded bucket index no longer finds needles containing them.
 	c11FoldArithmetic(c, "R3", "internal/operators")
+	c11ProbeFlags(c)
 	// literals are built from whole runes: no rune of a pattern literal is narrowed to a byte
 	runeToByte(c, "R3", "internal/operators")
 	// trie words are never dropped: trieReconstruct filters the glued words by length, which is harmless only as
@@ -918,4 +920,90 @@ func c11FoldArithmetic(c *an.Ctx, rule, pkg string) {
 		})
 	}
 	c.MinCount(rule, "case-fold arithmetic sites in "+pkg, n, 3)
+}
+
+// c11ProbeFlags: the literal search loops probe for the next candidate position with strings.IndexByte/Index.  A
+// flag that switches a probe off for the rest of the search ("no upper-case variant left") may only be cleared
+// after a probe over the *whole remaining input* missed; clearing it after a bounded probe (tail[:lo]) skips real
+// occurrences further on, i.e. the prefilter rejects inputs the regex matches.  Checked for every loop-carried
+// bool of the prefilter's search functions: a back-edge value `false` needs the fact Index*(s[i:], x) < 0 with an
+// unbounded slice of a parameter.
+func c11ProbeFlags(c *an.Ctx) {
+	n := 0
+	for _, fn := range c.P.ModFuncs {
+		if relPkg(fn) != "internal/operators" || !strings.Contains(c.P.Position(fn.Pos()), "rxprefilter") {
+			continue
+		}
+		for _, b := range fn.Blocks {
+			lp := an.InnermostLoop(b)
+			if lp == nil || lp.Header != b {
+				continue
+			}
+			for _, in := range b.Instrs {
+				phi, ok := in.(*ssa.Phi)
+				if !ok {
+					break
+				}
+				if bt, ok := phi.Type().Underlying().(*types.Basic); !ok || bt.Kind() != types.Bool {
+					continue
+				}
+				// where does a constant false enter on a back edge?
+				var visit func(v ssa.Value, pred *ssa.BasicBlock, si int, d int)
+				seen := map[ssa.Value]bool{}
+				visit = func(v ssa.Value, pred *ssa.BasicBlock, si int, d int) {
+					if d > 6 {
+						return
+					}
+					if p2, ok := v.(*ssa.Phi); ok && p2 != phi {
+						if seen[p2] {
+							return
+						}
+						seen[p2] = true
+						for j, e := range p2.Edges {
+							pp := p2.Block().Preds[j]
+							k := 0
+							for q, sc := range pp.Succs {
+								if sc == p2.Block() {
+									k = q
+								}
+							}
+							visit(e, pp, k, d+1)
+						}
+						return
+					}
+					cst, ok := v.(*ssa.Const)
+					if !ok || an.Expr(cst) != "false" {
+						return
+					}
+					n++
+					okProbe := false
+					for _, a := range an.EdgeFacts(pred, si) {
+						if a.Op == "<" && a.R == "0" && (strings.HasPrefix(a.L, "strings.IndexByte(") || strings.HasPrefix(a.L, "strings.Index(")) {
+							arg := a.L[strings.Index(a.L, "(")+1:]
+							// first argument: <param>[<lo>:] with no upper bound
+							if i := strings.Index(arg, ":],"); i > 0 && !strings.Contains(arg[:i], ":") && !strings.Contains(arg[:i], "φ") {
+								okProbe = true
+							}
+						}
+					}
+					key := fmt.Sprintf("%s: probe flag #%d is cleared only after a whole-tail probe missed", fn.Name(), n)
+					c.Check(okProbe, "R3", key, phi.Pos(), "cleared under Index*(s[i:], x) < 0", "a loop-carried flag of the literal search is set to false on an edge that is not 'a probe over the whole remaining input found nothing': later occurrences are no longer looked for and the prefilter rejects inputs the regex matches", an.EdgeFacts(pred, si).Strings()...)
+				}
+				for j, e := range phi.Edges {
+					pp := b.Preds[j]
+					if !lp.Blocks[pp] {
+						continue
+					}
+					k := 0
+					for q, sc := range pp.Succs {
+						if sc == b {
+							k = q
+						}
+					}
+					visit(e, pp, k, 0)
+				}
+			}
+		}
+	}
+	c.OkTrivial("R3", "loop-carried probe flags cleared in the prefilter's search loops", token.NoPos, fmt.Sprintf("%d sites", n))
 }
